@@ -57,6 +57,7 @@ namespace vf
       bool visited_check = false;
       // parse-tree selectors: per selector the mode of every model node (0 unselected, 1 store_content, 2 remove_content, 3 fold_one, 4 discard_empty)
       std::vector< std::vector< int > > sel_modes;
+      std::size_t ( *analyze_fn )() = nullptr;  // C11: tao::pegtl::analyze< Top >( -1 )
       int maxlen_quick = 5, maxlen_thorough = 7;
       std::vector< std::string > extra;  // explicit additional inputs
       std::vector< cfg_entry > cfgs;
@@ -881,7 +882,7 @@ namespace vf
 
       auto sink_direct = [ & ]( const std::string& sig, const std::string& kase, const std::string& detail ) { R.fail( sig, kase, detail ); };
 
-      if( !A.kase.empty() ) {
+      if( !A.kase.empty() && prop != "C11" ) {
          const std::string js = read_file( A.kase );
          case_t c;
          c.input = unhex( jget( js, "input_hex" ) );
@@ -896,6 +897,105 @@ namespace vf
          ge.build( g, reg );
          c.slots.resize( std::size_t( ge.nslots ) );
          run_case( ge, g, reg, c, prop, R, sink_direct, cfg.empty() ? nullptr : cfg.c_str() );
+         R.write( A.out );
+         return R.failures.empty() ? 0 : 1;
+      }
+
+      if( prop == "C11" ) {
+         // ---- grammar analysis vs dynamic witnesses of cycles without progress -------------------------------------
+         for( gram_entry& ge : gs ) {
+            if( !ge.analyze_fn ) {
+               continue;
+            }
+            pm::grammar g;
+            registry reg;
+            ge.build( g, reg );
+            const std::size_t problems = ge.analyze_fn();
+            const int maxlen = int( A.geti( "maxlen", A.thorough() ? 5 : 4 ) );
+            const std::string& al = ge.alphabet;
+            bool witness = false, confirmed = false;
+            std::string winput, wkind;
+            int wnode = -1;
+            std::vector< int > idx;
+            for( int len = 0; len <= maxlen && !witness; ++len ) {
+               idx.assign( std::size_t( len ), 0 );
+               for( ;; ) {
+                  std::string in( std::size_t( len ), ' ' );
+                  for( int i = 0; i < len; ++i ) {
+                     in[ std::size_t( i ) ] = al[ std::size_t( idx[ std::size_t( i ) ] ) ];
+                  }
+                  R.eval();
+                  pm::machine mm( g, in );
+                  mm.detect_loops = true;
+                  mm.ignore_actions = true;
+                  mm.fuel = 300000;
+                  (void)mm.run_cfg( true );
+                  if( mm.loop_witness ) {
+                     witness = true;
+                     winput = in;
+                     wkind = mm.loop_kind;
+                     wnode = mm.loop_node;
+                     break;
+                  }
+                  int k = len - 1;
+                  while( k >= 0 && ++idx[ std::size_t( k ) ] == int( al.size() ) ) {
+                     idx[ std::size_t( k ) ] = 0;
+                     --k;
+                  }
+                  if( k < 0 ) {
+                     break;
+                  }
+               }
+            }
+            if( witness ) {
+               // confirm against the real code: a fuel- and depth-limited run must not terminate on its own
+               const probe pb( winput );
+               monitor& m = mon();
+               m.reset();
+               m.g = &g;
+               m.reg = &reg;
+               m.model = nullptr;
+               m.check_model = false;
+               m.check_positions = false;
+               m.base = pb.begin();
+               m.real_end = pb.end();
+               m.fuel = 30000;
+               m.max_depth = 250;
+               case_t c;
+               c.input = winput;
+               crash().ge = &ge;
+               crash().c = &c;
+               crash().cfg = ge.cfgs[ 0 ].name;
+               const impl_result got = ge.cfgs[ 0 ].fn( pb );
+               confirmed = m.aborted || got.k == pm::FUEL;
+               m.fuel = 400000;
+               m.max_depth = 100000;
+               m.check_positions = true;
+               R.cls( confirmed ? "witness-confirmed-on-the-implementation" : "witness-NOT-confirmed-on-the-implementation" );
+               if( !confirmed ) {
+                  ++R.inconclusive;
+               }
+            }
+            R.cls( witness ? ( problems ? "ill-formed:reported" : "ill-formed:NOT-reported" ) : ( problems ? "no-witness:reported" : "no-witness:not-reported" ) );
+            if( witness && confirmed ) {
+               R.nontrivial( fnv( ge.pretty ) );
+               if( R.want_sample() ) {
+                  R.sample( jobj().str( "grammar", ge.pretty ).str( "witness_input", show( winput ) ).str( "witness", wkind ).num( "analyze_problems", (long long)problems ).done() );
+               }
+               if( problems == 0 ) {
+                  const std::string where = wnode >= 0 ? ( g.nodes[ std::size_t( wnode ) ].tname.empty() ? std::string( "synthetic" ) : family( g.nodes[ std::size_t( wnode ) ].tname ) ) : std::string( "?" );
+                  case_t c;
+                  c.input = winput;
+                  const std::string sig = "certified-loop:" + wkind + ":" + where;
+                  const std::string detail = "[" + ge.name + "] analyze() reports 0 problems, but on input '" + show( winput ) + "' the grammar runs into a " + wkind + " (the reference model proves it, the real parser did not terminate within 30000 rule attempts / 250 nested attempts)\n grammar: " + ge.pretty;
+                  if( is_known( sig ) ) {
+                     ++R.excluded_known;
+                  }
+                  R.fail( sig, case_json( ge, c, ge.cfgs[ 0 ].name ), detail );
+               }
+            }
+         }
+         R.cls( "grammars", gs.size() );
          R.write( A.out );
          return R.failures.empty() ? 0 : 1;
       }
